@@ -51,6 +51,8 @@ type checkSpec struct {
 	// panic in a risor goroutine, exit through a bypassed OS) is a violation
 	// candidate, confirmed by repeating the in-flight run alone.
 	DeathIsViolation bool
+	// GMP: GOMAXPROCS of each worker process (default 2)
+	GMP int
 }
 
 // Budgets live here (driver side) so that tiers can be tuned without touching
@@ -62,7 +64,7 @@ var specs = map[string]*checkSpec{
 	"C12": {Property: "C12", Level: "fault_enumeration", Runs: map[string]int{"quick": 0, "thorough": 0}, Wall: map[string]int{"quick": 50, "thorough": 1500}, TotalFromWorker: true},
 	"C05": {Property: "C05", Level: "exploration", Overlay: true, Runs: map[string]int{"quick": 12000, "thorough": 300000}, Wall: map[string]int{"quick": 45, "thorough": 1500}, MustCount: "probe_site_"},
 	"C18": {Property: "C18", Level: "exploration", Runs: map[string]int{"quick": 20000, "thorough": 600000}, Wall: map[string]int{"quick": 50, "thorough": 1500}},
-	"C06": {Property: "C06", Level: "exploration", Runs: map[string]int{"quick": 30000, "thorough": 1000000}, Wall: map[string]int{"quick": 50, "thorough": 1500}},
+	"C06": {Property: "C06", Level: "exploration", GMP: 4, Runs: map[string]int{"quick": 30000, "thorough": 1000000}, Wall: map[string]int{"quick": 50, "thorough": 1500}},
 	"C07": {Property: "C07", Level: "exploration", Runs: map[string]int{"quick": 20000, "thorough": 600000}, Wall: map[string]int{"quick": 50, "thorough": 1500}},
 	"C10": {Property: "C10", Level: "exploration", AlsoRace: true, Runs: map[string]int{"quick": 12000, "thorough": 400000}, RaceRuns: map[string]int{"quick": 1500, "thorough": 60000}, Wall: map[string]int{"quick": 70, "thorough": 1800}},
 }
@@ -407,7 +409,11 @@ func cmdCheck(args []string) {
 		gmp   int
 		chunk int
 	}
-	phases := []phase{{race: spec.Race, bin: bin, runs: runs, wall: wall, gmp: 2}}
+	gmp := 2
+	if spec.GMP > 0 {
+		gmp = spec.GMP
+	}
+	phases := []phase{{race: spec.Race, bin: bin, runs: runs, wall: wall, gmp: gmp}}
 	if spec.AlsoRace {
 		// phase R: the same scenario in a binary built with the race detector
 		rbin := buildWorker(spec, true)
